@@ -24,6 +24,7 @@ import (
 	"fmt"
 	"net"
 	"os"
+	"os/exec"
 	"sort"
 	"strings"
 	"sync"
@@ -57,6 +58,50 @@ type c02Run struct {
 	rep   *vfReport
 	stop  atomic.Bool
 	nextV atomic.Int64
+	// an out-of-process member (kill -9 scenario): raft address -> inter-node service address
+	remoteRaft, remoteSvc string
+	rclient               *cluster.Client
+}
+
+// remoteDo performs the operation on the out-of-process node through cluster.Client/Service.
+func (r *c02Run) remoteDo(op *c02Op, k int) (ok, definite bool, err error) {
+	ctx, cancel := context.WithTimeout(context.Background(), 15*time.Second)
+	defer cancel()
+	notLeader := func(e error) bool { return e != nil && strings.Contains(e.Error(), "not leader") }
+	if op.kind == "w" {
+		er := executeRequestFromString(fmt.Sprintf("INSERT OR REPLACE INTO kv(k, v) VALUES(%d, %d)", k, op.val), false, false)
+		res, _, err := r.rclient.Execute(ctx, er, r.remoteSvc, nil, 10*time.Second, 0)
+		if err != nil {
+			// cluster.Client.retry re-sends the command once on a fresh connection after any
+			// non-timeout error, so the error we see may belong to the SECOND attempt while the
+			// first was executed: every failed remote write has an unknown outcome
+			_ = notLeader
+			return false, false, err
+		}
+		for _, x := range res {
+			if e := x.GetE(); (e != nil && e.Error != "") || x.GetError() != "" {
+				return false, false, fmt.Errorf("remote statement error")
+			}
+		}
+		return true, false, nil
+	}
+	qr := queryRequestFromString(fmt.Sprintf("SELECT v FROM kv WHERE k=%d", k), false, false, false)
+	qr.Level = proto.ConsistencyLevel_LINEARIZABLE
+	if op.kind == "strong" {
+		qr.Level = proto.ConsistencyLevel_STRONG
+	}
+	rows, _, err := r.rclient.Query(ctx, qr, r.remoteSvc, nil, 10*time.Second, 0)
+	if err != nil {
+		return false, true, err
+	}
+	if len(rows) != 1 || rows[0].Error != "" {
+		return false, true, fmt.Errorf("bad rows %v", rows)
+	}
+	op.val, op.level = -1, "REMOTE"
+	if len(rows[0].Values) > 0 {
+		op.val = rows[0].Values[0].Parameters[0].GetI()
+	}
+	return true, true, nil
 }
 
 func (r *c02Run) snapshot(i int) (*Store, string, bool) {
@@ -168,6 +213,15 @@ func (r *c02Run) client(id int, rng *vfRng, keys int, wg *sync.WaitGroup) {
 						r.rep.Count("client:forwarded:ok")
 					} else {
 						r.rep.Count("client:forwarded:failed:" + c02ErrClass(err))
+					}
+				} else if r.rclient != nil && addr == r.remoteRaft {
+					op.via = "child (cluster.Client)"
+					r.rep.Count("client:forwarded-to-child-process")
+					ok, definite, err = r.remoteDo(&op, k)
+					if ok {
+						r.rep.Count("client:forwarded-to-child-process:ok")
+					} else {
+						r.rep.Count("client:forwarded-to-child-process:failed:" + c02ErrClass(err))
 					}
 				} else {
 					r.rep.Count("client:leader-named-is-self-or-down")
@@ -384,7 +438,22 @@ func c02Linearize(ops []c02Op, keys int) ([]int, bool, int) {
 			known++
 		}
 	}
-	ok := s.search(make([]bool, len(ops)), state, known)
+	// a write whose outcome is unknown and whose value no read ever returned can be left out of
+	// the linearization (that is always allowed for it, and removing a never-observed write
+	// keeps every read legal): mark it done from the start so that it is never a candidate
+	seen := map[[2]int64]bool{}
+	for _, o := range ops {
+		if o.kind != "w" {
+			seen[[2]int64{int64(o.key), o.val}] = true
+		}
+	}
+	done := make([]bool, len(ops))
+	for i, o := range ops {
+		if o.kind == "w" && o.resp == 0 && !seen[[2]int64{int64(o.key), o.val}] {
+			done[i] = true
+		}
+	}
+	ok := s.search(done, state, known)
 	return s.order, ok, s.steps
 }
 
@@ -723,11 +792,16 @@ func c02ForwardedPath(t *testing.T, rep *vfReport) bool {
 	client := cluster.NewClient(c02Dialer{}, 5*time.Second)
 	var clock atomic.Int64
 	var ops []c02Op
+	term0 := n0.S.raft.CurrentTerm()
+	diag := func() string {
+		return fmt.Sprintf("n0: state=%v term=%d (was %d) lastContact-of-follower=%s ago; follower: state=%v term=%d leader=%q",
+			n0.S.raft.State(), n0.S.raft.CurrentTerm(), term0, time.Since(f.S.raft.LastContact()).Round(time.Millisecond), f.S.raft.State(), f.S.raft.CurrentTerm(), func() string { a, _ := f.S.LeaderAddr(); return a }())
+	}
 	write := func(v int64) bool {
 		op := c02Op{kind: "w", key: 0, val: v, inv: clock.Add(1), node: n0.Name}
 		ok, _, err := c02Write(n0.S, 0, v)
 		if !ok {
-			rep.Note("forwarded path: write failed: %v", err)
+			rep.Note("forwarded path: write failed: %v [%s]", err, diag())
 			return false
 		}
 		op.resp = clock.Add(1)
@@ -780,7 +854,7 @@ func c02ForwardedPath(t *testing.T, rep *vfReport) bool {
 	// a strong read straight on the leader queues behind the slow one in the FSM: when it returns,
 	// the slow one has been answered
 	if _, _, err := clu8Query(n0.S, "SELECT 1", proto.ConsistencyLevel_STRONG, 0); err != nil {
-		rep.Note("forwarded path: barrier read failed: %v (n0 leader=%v state=%v term=%d; follower leader=%v term=%d)", err, n0.S.IsLeader(), n0.S.raft.State(), n0.S.raft.CurrentTerm(), f.S.IsLeader(), f.S.raft.CurrentTerm())
+		rep.Note("forwarded path: barrier read failed: %v [%s]", err, diag())
 	}
 	time.Sleep(200 * time.Millisecond)
 	if !write(2) {
@@ -803,6 +877,161 @@ func c02ForwardedPath(t *testing.T, rep *vfReport) bool {
 	c02Verdict(t, rep, "forwarded-read-returns-another-requests-reply", ops, 1,
 		"reads forwarded from a follower through cluster.Client/cluster.Service; one forwarded read timed out at the client while the leader was still executing it; write k0=2 acknowledged; later forwarded reads by the same client")
 	return timedOut
+}
+
+// ---- kill -9 of a real process (thorough tier) -------------------------------------------
+//
+// TestVerifC02Child is the child: a Store plus its inter-node service in a process of its own
+// (the test binary re-executed). The parent kills it with SIGKILL — no Close, no snapshot on
+// close, no flush — and starts it again on the same directory and addresses.
+func TestVerifC02Child(t *testing.T) {
+	dir := os.Getenv("C02_CHILD_DIR")
+	if dir == "" {
+		t.Skip()
+	}
+	ly := mustMockLayer(os.Getenv("C02_CHILD_RAFT"))
+	s := New(&Config{DBConf: NewDBConfig(), Dir: dir, ID: "child"}, ly)
+	if err := s.Open(); err != nil {
+		fmt.Println("C02CHILD open failed:", err)
+		os.Exit(3)
+	}
+	ln, err := net.Listen("tcp", os.Getenv("C02_CHILD_SVC"))
+	if err != nil {
+		fmt.Println("C02CHILD listen failed:", err)
+		os.Exit(3)
+	}
+	svc := cluster.New(ln, s, s, nil)
+	if err := svc.Open(); err != nil {
+		os.Exit(3)
+	}
+	fmt.Println("C02CHILD READY")
+	select {}
+}
+
+func c02FreePort() string {
+	ln, err := net.Listen("tcp", "127.0.0.1:0")
+	if err != nil {
+		return "127.0.0.1:0"
+	}
+	defer ln.Close()
+	return ln.Addr().String()
+}
+
+func c02KillRun(t *testing.T, rep *vfReport, seedSalt uint64) {
+	rng := vfNewRng(700 + seedSalt)
+	c := clu8NewCluster(t)
+	defer c.Close()
+	r := &c02Run{c: c, rep: rep}
+	n0, err := c.NewNode()
+	if err != nil {
+		t.Fatalf("C02 harness: %v", err)
+	}
+	if err := c.Bootstrap(n0); err != nil {
+		t.Fatalf("C02 harness: %v", err)
+	}
+	n1, err := c.NewNode()
+	if err != nil {
+		t.Fatalf("C02 harness: %v", err)
+	}
+	if err := n0.S.Join(joinRequest(n1.Name, n1.Addr, true)); err != nil {
+		t.Fatalf("C02 harness: %v", err)
+	}
+	dir, err := os.MkdirTemp("", "c02-child-")
+	if err != nil {
+		t.Fatalf("C02 harness: %v", err)
+	}
+	defer os.RemoveAll(dir)
+	r.remoteRaft, r.remoteSvc = c02FreePort(), c02FreePort()
+	r.rclient = cluster.NewClient(c02Dialer{}, 5*time.Second)
+	var child *exec.Cmd
+	start := func() bool {
+		child = exec.Command(os.Args[0], "-test.run", "^TestVerifC02Child$", "-test.timeout", "60m")
+		child.Env = append(os.Environ(), "C02_CHILD_DIR="+dir, "C02_CHILD_RAFT="+r.remoteRaft, "C02_CHILD_SVC="+r.remoteSvc, "VERIF_OUT=")
+		if err := child.Start(); err != nil {
+			rep.Note("kill -9 run: cannot start child: %v", err)
+			return false
+		}
+		deadline := time.Now().Add(60 * time.Second)
+		for time.Now().Before(deadline) {
+			if cn, err := net.DialTimeout("tcp", r.remoteSvc, time.Second); err == nil {
+				cn.Close()
+				return true
+			}
+			time.Sleep(50 * time.Millisecond)
+		}
+		rep.Note("kill -9 run: child did not come up")
+		return false
+	}
+	kill := func() {
+		if child != nil && child.Process != nil {
+			child.Process.Kill() // SIGKILL
+			child.Wait()
+		}
+	}
+	defer kill()
+	if !start() {
+		return
+	}
+	if err := n0.S.Join(joinRequest("child", r.remoteRaft, true)); err != nil {
+		rep.Note("kill -9 run: join of the child failed: %v", err)
+		return
+	}
+	if err := clu8Exec(n0.S, "CREATE TABLE kv (k INTEGER PRIMARY KEY, v INTEGER)"); err != nil {
+		t.Fatalf("C02 harness: %v", err)
+	}
+	keys := 4
+	var wg sync.WaitGroup
+	for i := 0; i < 4; i++ {
+		wg.Add(1)
+		go r.client(i, vfNewRng(7000+seedSalt*100+uint64(i)), keys, &wg)
+	}
+	var flog []string
+	for round := 0; round < 5; round++ {
+		time.Sleep(time.Duration(800+rng.Intn(800)) * time.Millisecond)
+		// hand leadership to the child, let it serve for a moment, then SIGKILL it
+		if l := c.Leader(30 * time.Second); l != nil {
+			if err := l.S.Stepdown(true, "child"); err == nil {
+				flog = append(flog, "leadership transferred to the child process")
+				rep.Count("kill9:leadership-to-child")
+			}
+		}
+		time.Sleep(time.Duration(500+rng.Intn(1000)) * time.Millisecond)
+		kill()
+		flog = append(flog, "child process killed with SIGKILL")
+		rep.Count("kill9:sigkill")
+		time.Sleep(time.Duration(1000+rng.Intn(1000)) * time.Millisecond)
+		if !start() {
+			break
+		}
+		flog = append(flog, "child process restarted")
+	}
+	time.Sleep(2 * time.Second)
+	r.stop.Store(true)
+	wg.Wait()
+	if l := c.Leader(60 * time.Second); l != nil {
+		for k := 0; k < keys; k++ {
+			op := c02Op{client: -1, kind: "lin", key: k, node: l.Name}
+			op.inv = r.clock.Add(1)
+			v, eff, err := c02Read(l.S, k, proto.ConsistencyLevel_LINEARIZABLE)
+			if err == nil {
+				op.val, op.level = v, eff.String()
+				op.resp = r.clock.Add(1)
+				r.hist = append(r.hist, op)
+			}
+		}
+	}
+	ops := append([]c02Op(nil), r.hist...)
+	sort.SliceStable(ops, func(i, j int) bool { return ops[i].inv < ops[j].inv })
+	remote := 0
+	for _, o := range ops {
+		if strings.HasPrefix(o.via, "child") {
+			remote++
+		}
+	}
+	rep.CountN("kill9:ops-served-by-the-child-process", remote)
+	rep.Case(fmt.Sprintf("kill9-run%d|%d ops|%v", seedSalt, len(ops), flog), remote > 0)
+	rep.Sample(map[string]interface{}{"scenario": "kill -9", "faults": flog, "ops": len(ops), "served_by_child": remote})
+	c02Verdict(t, rep, "history-not-linearizable:kill-9", ops, keys, fmt.Sprintf("two in-process nodes + one member in a process of its own that repeatedly becomes leader and is killed with SIGKILL: %v", flog))
 }
 
 // c02SelfTest makes sure the search and the verified checker reject what they must: a
@@ -838,8 +1067,31 @@ func c02SelfTest(t *testing.T, rep *vfReport) {
 	rep.vfCompare("linz", lines, want, nil)
 }
 
+// TestVerifC02KillOnly runs just the kill -9 scenario (diagnostic; run by hand)
+func TestVerifC02KillOnly(t *testing.T) {
+	if os.Getenv("C02_KILL_ONLY") == "" {
+		t.Skip()
+	}
+	rep := vfNewReport("C02", "kill -9 only")
+	defer rep.Write()
+	c02KillRun(t, rep, 0)
+}
+
+// TestVerifC02FwdLoop repeats the forwarded-path scenario (diagnostic; run by hand)
+func TestVerifC02FwdLoop(t *testing.T) {
+	if os.Getenv("C02_FWD_LOOP") == "" {
+		t.Skip()
+	}
+	rep := vfNewReport("C02", "diagnostic loop")
+	defer rep.Write()
+	for i := 0; i < 25; i++ {
+		ok := c02ForwardedPath(t, rep)
+		fmt.Printf("C02FWD run %d -> %v\n", i, ok)
+	}
+}
+
 func TestVerifC02(t *testing.T) {
-	rep := vfNewReport("C02", "live 3-node (thorough: also 5-node) clusters behind a fault-injecting transport layer; 4-6 concurrent clients issuing keyed writes (unique values), strong reads and linearizable reads to any node with one-hop forwarding to the named leader; seeded fault schedules (leader isolated, follower isolated, leader in a minority, stepdown, follower/leader stop+restart); one case per run = one recorded history; non-trivial when it contains acked writes, strong and linearizable reads and at least one fault; the linearization order found by search is re-checked by the Lean-verified checkWitness")
+	rep := vfNewReport("C02", "directed scenarios (forwarded path through cluster.Client/Service with a client-side timeout; fresh-leader window; a member in a process of its own that becomes leader and is killed with SIGKILL, 5 times per run) and live 3-node (thorough: also 5-node) clusters behind a fault-injecting transport layer; 4-6 concurrent clients issuing keyed writes (unique values), strong reads and linearizable reads to any node with one-hop forwarding to the named leader; seeded fault schedules (leader isolated, follower isolated, leader in a minority, stepdown, follower/leader stop+restart); one case per run = one recorded history; non-trivial when it contains acked writes, strong and linearizable reads and at least one fault; the linearization order found by search is re-checked by the Lean-verified checkWitness")
 	defer rep.Write()
 	c02SelfTest(t, rep)
 	for attempt := 0; attempt < 3; attempt++ {
@@ -854,6 +1106,11 @@ func TestVerifC02(t *testing.T) {
 	for i := 0; i < vfScale(1, 4); i++ {
 		if fin, dump := clu8Guard(10*time.Minute, func() { c02FreshLeaderWindow(t, rep) }); !fin {
 			rep.Note("C02: fresh-leader window scenario abandoned; goroutines: %s", dump)
+		}
+	}
+	for i := 0; i < vfScale(1, 4); i++ {
+		if fin, dump := clu8Guard(15*time.Minute, func() { c02KillRun(t, rep, uint64(i)) }); !fin {
+			rep.Note("C02: kill -9 run abandoned; goroutines: %s", dump)
 		}
 	}
 	runs := vfScale(2, 10)
